@@ -69,13 +69,15 @@ pub struct Ev { pub kind: usize, pub id: usize, pub node: usize, pub pos: usize,
 #[derive(Default)]
 pub struct Ctx { pub tokens: Vec<Token>, pub spans: Vec<Span> }
 thread_local! {
-    pub static SCRIPT: std::cell::RefCell<(Vec<bool>, usize)> = std::cell::RefCell::new((vec![], 0));
+    pub static SCRIPT: std::cell::RefCell<(Vec<bool>, usize, Vec<bool>)> = std::cell::RefCell::new((vec![], 0, vec![]));
     pub static LOG: std::cell::RefCell<Vec<Ev>> = std::cell::RefCell::new(vec![]);
 }
 // the two environment stubs: intercepted at the MIR call edge by the symbolic executor, thread-local script/log natively
 #[inline(never)]
 pub fn nondet_bool() -> bool {
-    SCRIPT.with(|s| { let mut s = s.borrow_mut(); let k = s.1; s.1 += 1; s.0.get(k).copied().unwrap_or(false) })
+    // script = prefix followed by an optional cycle that is repeated forever (written "0101(01)")
+    SCRIPT.with(|s| { let mut s = s.borrow_mut(); let k = s.1; s.1 += 1;
+        if k < s.0.len() { s.0[k] } else if !s.2.is_empty() { let c = s.2.len(); s.2[(k - s.0.len()) %% c] } else { false } })
 }
 #[inline(never)]
 pub fn log_ev(e: Ev) { LOG.with(|l| l.borrow_mut().push(e)); }
@@ -115,12 +117,15 @@ fn main() {
         let mut it = line.split('|');
         let entry = it.next().unwrap().to_string();
         let toks: Vec<Token> = it.next().unwrap().split_whitespace().map(tok).collect();
-        let script: Vec<bool> = it.next().unwrap_or("").chars().map(|c| c == '1').collect();
+        let sc = it.next().unwrap_or("");
+        let (pre, cyc) = match sc.split_once('(') { Some((a, b)) => (a, b.trim_end_matches(')')), None => (sc, "") };
+        let script: Vec<bool> = pre.chars().map(|c| c == '1').collect();
+        let cycle: Vec<bool> = cyc.chars().map(|c| c == '1').collect();
         let n = toks.len();
         let res = std::panic::catch_unwind(move || {
             let mut ctx = Ctx::default();
             for (i, t) in toks.iter().enumerate() { ctx.tokens.push(*t); ctx.spans.push(i..i + 1); }
-            SCRIPT.with(|s| *s.borrow_mut() = (script, 0)); LOG.with(|l| l.borrow_mut().clear());
+            SCRIPT.with(|s| *s.borrow_mut() = (script, 0, cycle)); LOG.with(|l| l.borrow_mut().clear());
             let src: String = "x".repeat(n);
             let mut diags: Vec<Diagnostic> = vec![];
             let p = Parser::new_with_context(&src, &mut diags, ctx);
@@ -224,7 +229,7 @@ def make_harness(text, want_native=True, log=None):
     alltoks = ['EOF'] + eofs + toks + ['Error']
     entries = ['"parse" => p.parse(&mut diags)'] + [f'"parse_{p}" => p.parse_{p}(&mut diags)' for p in parts]
     main = MAIN_TEMPLATE % dict(tokmatch=', '.join(f'"{t}" => Token::{t}' for t in alltoks), entries=', '.join(entries))
-    key = hashlib.sha256((gen + '\0' + lib + '\0' + main + '\0v8').encode()).hexdigest()[:24]
+    key = hashlib.sha256((gen + '\0' + lib + '\0' + main + '\0v9').encode()).hexdigest()[:24]
     d = os.path.join(WORK, 'h', key)
     if not (os.path.exists(os.path.join(d, 'meta.json')) and os.path.exists(os.path.join(d, 'mir.txt'))
             and (not want_native or os.path.exists(os.path.join(d, 'native')))):
@@ -266,8 +271,13 @@ def run_native(h, cases, release=False, timeout=60):
     inp = ''.join(f"{e}|{' '.join(t)}|{s}\n" for e, t, s in cases)
     try:
         # `timeout -s KILL` inside: the process ends by itself even if this check is killed while it spins
-        r = subprocess.run(['bash', '-c', f'ulimit -s 4096; exec timeout -s KILL {int(timeout) + 5} {exe}'], input=inp, capture_output=True, text=True, timeout=timeout)
+        # the watchdog is the inner `timeout -s KILL` (it ends the parser even if this check is killed meanwhile); Python's own
+        # timeout is only a backstop and must fire later, otherwise it kills the watchdog and the orphaned parser keeps the
+        # output pipe open forever
+        r = subprocess.run(['bash', '-c', f'ulimit -s 4096; exec timeout -s KILL {int(timeout)} {exe}'], input=inp, capture_output=True, text=True, timeout=timeout + 20)
     except subprocess.TimeoutExpired:
+        return [{'timeout': True}] * len(cases)
+    if r.returncode in (137, -9):
         return [{'timeout': True}] * len(cases)
     out = []
     for line in r.stdout.split('\n'):
